@@ -572,6 +572,26 @@ def check_with_execution_state(ctx, prog, tag):
                     t_ = wes.term(sb)
                     through |= {x for v, x in [(v, x) for v, x in t_["arms"]] + [("otherwise", t_["otherwise"])] if v not in taken}
         okr = bool(rsd) and all(cfg.paths_must_pass(wes, fc.bb, through, wes.returns()) for fc in calls)
+        if not okr and rsd:
+            # whether the frames are unwound may be decided by a flag computed from the block state (`let unwinds =
+            # block_state.shares_context()`): walk the paths with the kind of evaluation known.  For every kind but the
+            # isolated one (a macro call brings a context of its own) each call of the closure is followed by the restore.
+            from .. import typestate, inline as _inl
+            BS = "minijinja::vm::state::BlockState"
+            wv = _inl.view(prog, wes, keep=("restore_stack_depth", "stack_depth", "call_once"))
+            bs_local = next((i for i in range(1, wv.argc + 1) if wv.locals[i].get("adt") == BS), None)
+            kinds = [v for v in (prog.variants(BS) if prog.adts.get(BS) else []) if v != "Isolate"]
+            okr = bs_local is not None and bool(kinds)
+            for v in kinds:
+                def on_call(k, st, val):
+                    if k.name.startswith("core::ops::function::FnOnce::call_once") or k.indirect:
+                        return [("called", None)]
+                    if k.name.endswith("Context::restore_stack_depth"):
+                        return [("restored", None)]
+                    return None
+                wr = typestate.explore(prog, wv, "entry", on_call, env0={bs_local: ("V", frozenset([v]))})
+                if wr.budget_hit or not wr.exits or any(x[0] != "restored" for x in wr.exits):
+                    okr = False
         ctx.ob("C05.B4.frames-pushed-by-nested-evaluation-are-dropped", tag + "with_execution_state", okr,
                "restore_stack_depth must follow the nested evaluation on every path from each call of it to a return: the "
                "frames a nested evaluation pushed (the scope of a block call) stay on the caller's stack otherwise", wes.loc)
